@@ -1,7 +1,8 @@
 (** C01 with binds present, passes in which binds SWAP (stage B2).
 
-    UNCONDITIONAL for graphs all of whose bind templates are PLAIN ([PassBindSwapStep.tplain]: no
-    nested bind, [TNil] only as a whole case): [C01_swap_pass_plain] -- a serial pass without a plan
+    UNCONDITIONAL for graphs all of whose bind templates satisfy [PassBindSwapStep.tplain]: [TNil]
+    occurs only as a whole case (which [EngineInv.Inv] demands anyway, [texp_wf]); NESTED binds
+    ([TBind] inside templates, to any depth) are allowed: [C01_swap_pass_plain] -- a serial pass without a plan
     from a state satisfying [Inv] and [ValInvB] ends [consistent], with every observer reading the
     from-scratch value, however many binds swap in it.  The step behind it is
     [C01_swap_bind_step]: the recompute of a lhs-change node (the bind function runs: inst,
@@ -10,7 +11,7 @@
     structural half is [EngineInvProofs.bind_spec_holds], whose proof is replayed to obtain the
     intermediate states.
 
-    For arbitrary templates (nested binds) the pass theorem is CONDITIONAL on that one step:
+    The earlier conditional form (hypothesis [bind_value_spec]) is kept:
 
     The loop invariant [PassBindSwap.LInvC] (the value clauses of PassBind.LInvB, with "clean" for a
     lhs-change node meaning: the right-hand side of its bind is the instantiation of the case its
